@@ -1,8 +1,8 @@
-    // F18 (C19): inserted into `mod tests` of ant-node-manager/src/lib.rs (before its closing brace).
+    // F20 (C19): inserted into `mod tests` of ant-node-manager/src/lib.rs (before its closing brace).
     // History: start launches the process, the RPC refresh fails -> start returns Err and the record stays `Added`;
     // stop then returns Ok without looking at the process, which is still alive.
     #[tokio::test]
-    async fn f18_successful_stop_after_failed_start_leaves_a_live_process() -> Result<()> {
+    async fn f20_successful_stop_after_failed_start_leaves_a_live_process() -> Result<()> {
         use std::sync::{atomic::{AtomicBool, Ordering}, Arc};
         let alive = Arc::new(AtomicBool::new(false));
         let mut mock_service_control = MockServiceControl::new();
